@@ -47,6 +47,7 @@ def gen_line(rng):
             for _ in range(rng.randrange(0, 4)):
                 hs.append(rng.choice([
                     b"Accept: text/html, text/vnd.wap.wml", b"Accept:text/vnd.wap.wml", b"accept: x,text/vnd.wap.wml",
+                    b"Accept: text/vnd.wap.wml", b"Accept: text/vnd.wap.wml, text/html;q=0.5", b"Accept:\ttext/vnd.wap.wml", b"Accept:  text/vnd.wap.wml",
                     b"Accept: text/vndxwapywml", b"ACCEPT: a text/vnd.wap.wml", b"Accept: text/html",
                     b"x-wap-profile: http://x", b"X-Up-Devcap-Max-Pdu: 1", b"Host: h", b"Junk line", b"Accept",
                     b" Accept : text/vnd.wap.wml", b"Accept: text/vnd\nwap.wml", b"accept: ,text/vnd.wap.wml"]))
@@ -196,6 +197,9 @@ def run(ctx):
     # fixed corpus first
     corpus = [(b"/README\t\r\n", b"", False), (b"\t\r\n", b"", False), (b"GET /wapiti.txt HTTP/1.0\r\n", b"\r\n", False),
               (b"GET / HTTP/1.0\r\n", b"Accept: a,text/vnd.wap.wml\r\nx-wap-profile: p\r\n\r\n", False),
+              (b"GET /hello.txt HTTP/1.1\r\n", b"Accept: text/vnd.wap.wml, text/html\r\nX-Wap-Profile: http://x\r\n\r\n", False),
+              (b"GET /hello.txt HTTP/1.0\r\n", b"Accept: text/vnd.wap.wml\r\nX-Up-Devcap-Max-Pdu: 1400\r\n\r\n", False),
+              (b"GET /hello.txt HTTP/1.0\r\n", b"Accept:text/vnd.wap.wml\r\nX-Up-Devcap-Max-Pdu: 1400\r\n\r\n", False),
               (b"h /p 0\r\n", b"", False), (b"h /p 0\r\n", b"", True), (b"gemini://h/\r\n", b"", False),
               (b"gemini://h/\r\n", b"", True), (b"/x\t+\r\n", b"", True), (b"/x\t$\r\n", b"", False),
               (b"GET / HTTP/1.0\r\n", b"", True), (b"/a\tq\t!\r\n", b"", False), (b"/a\tb\tc\td\r\n", b"", False)]
